@@ -5176,10 +5176,13 @@ func (l *Lowerer) lowerLocalConst(decl *parser.ConstDecl, target *[]ir.Statement
 	var explicitType ir.TypeHandle
 	hasExplicitType := false
 	if decl.Type != nil {
-		if th, typeErr := l.resolveType(decl.Type); typeErr == nil {
-			explicitType = th
-			hasExplicitType = true
+		th, typeErr := l.resolveType(decl.Type)
+		if typeErr != nil {
+			// an undeclared type in the annotation is an error like anywhere else
+			return fmt.Errorf("local '%s': %w", decl.Name, typeErr)
 		}
+		explicitType = th
+		hasExplicitType = true
 	}
 
 	// For abstract local const declarations (no explicit type, abstract init),
